@@ -24,7 +24,8 @@ ASSUMPTIONS = [
 ENUM_EXHAUSTIVE = {
     "thorough": "all 256 qualifier subsets x all y sequences of length 3 over {absent,1,2,3}(+true,false without increase/decrease) x all 8 rest patterns; "
                 "the 256 subsets x {absent,1,2}^3 x 8 rest patterns again on a tracking variable (tracking name first with reversed qualifier order / last); "
-                "the 16 subsets of onmatch/latch/onchange/nocontrib x sequences over {absent, empty cell, 1, 2} containing an empty cell x 8 rest patterns",
+                "the 16 subsets of onmatch/latch/onchange/nocontrib x sequences over {absent, empty cell, 1, 2} containing an empty cell x 8 rest patterns; "
+                "the 256 subsets x sequences over {absent, 0, 1, 2} containing 0 x 8 rest patterns",
 }
 
 YS_NUM = [None, "1", "2", "3"]
@@ -56,6 +57,17 @@ def _tracked_cases():
                                "form": {"track": track, "order": "rev" if track == "first" else "fwd"}}
 
 
+def _zero_cases():
+    """y may also be the text 0 (truthy for asbool: "similar to Python's bool(x)"; a number for increase/decrease)"""
+    for r in range(len(assign.QUALS) + 1):
+        for qs in itertools.combinations(assign.QUALS, r):
+            for yseq in itertools.product([None, "0", "1", "2"], repeat=3):
+                if "0" not in yseq:
+                    continue
+                for rest in itertools.product([True, False], repeat=3):
+                    yield {"quals": list(qs), "ys": list(yseq), "rest": list(rest)}
+
+
 BLANK_QUALS = ["onmatch", "latch", "onchange", "nocontrib"]
 
 
@@ -76,18 +88,19 @@ def enumerate_cases(tier, seed):
         yield from _all_cases()
         yield from _tracked_cases()
         yield from _blank_cases()
+        yield from _zero_cases()
         return
-    for j, fam in enumerate((_tracked_cases, _blank_cases)):
+    for j, fam in enumerate((_tracked_cases, _blank_cases, _zero_cases)):
         for i, c in enumerate(fam()):
             if core.hash32(seed, "c14x", j, i) % 1000 < 35:
                 yield c
-    # quick: seeded ~8% sample; every qualifier subset keeps >= 20 cases
+    # quick: seeded ~5% sample; every qualifier subset keeps >= 20 cases
     per = {}
     for i, c in enumerate(_all_cases()):
         k = tuple(c["quals"])
         h = core.hash32(seed, "c14", i) % 1000
         cnt = per.get(k, 0)
-        if h < 70 or cnt < 20:
+        if h < 50 or cnt < 20:
             per[k] = cnt + 1
             yield c
 
